@@ -13,26 +13,29 @@ def T(name, variant, *args, **kw):
 CHECK = {
   'id': 'C20',
   'level': 'model_checking',
-  'rule': ('explicit-state breadth-first search over all histories up to the depth bound of a 43-operation alphabet on ONE real File '
+  'rule': ('explicit-state breadth-first search over all histories up to the depth bound of a 45-operation alphabet on ONE real File '
            'object and two paths in a per-run scratch directory: sopen(path 0|1, "w+b"|"rb"|"r+b"|"ab") (also on an already open File and on '
            'the second path), sclose, stell, seof, sflush, swrite("" | "x" | "\\0y\\0" | 8193-byte block), sread(0|1|3|8193), '
-           'sseek({0,1,-1} x {SEEK_SET,SEEK_CUR,SEEK_END}), print_to("%s %li;","k",42), scan_from of that record, '
+           'sseek({0,1,-1} x {SEEK_SET,SEEK_CUR,SEEK_END}), sseek(stell, SEEK_SET) (a seek that moves nowhere), print_to("%s %li;","k",42), scan_from of that record, '
            'with(f in file){ nothing | sclose | stell | swrite | sread | print_to | sopen }, del followed by new_raw(File) / new(File) / '
-           'new_raw(File,path,mode).  Every history runs on the real File, on a twin plain FILE* (same stdio calls, same order, own files) and on a '
+           'new_raw(File,path,mode), and one environment operation: another stream appends a byte to the file the File has open (only while the File '
+           'has no pending output).  Every history runs on the real File, on a twin plain FILE* (same stdio calls, same order, own files) and on a '
            'byte-array reference model; the state key is the model: bytes of both files, open flag, path, mode, position, eof flag, direction of '
-           'the last transfer; states are re-entered by replaying their shortest history on freshly removed files.  Compared on every execution: '
+           'the last transfer, refined by glibc\'s bookkeeping of the real stream (flags, buffer offsets) whenever that differs from the twin stream\'s - '
+           'never a verdict, it only keeps a real stream that has silently departed from the model from being merged with the model state; states are re-entered by replaying their shortest history on freshly removed files.  Compared on every execution: '
            'bytes returned by every complete sread and the values scanned by scan_from against the bytes written (model) and the twin; return '
-           'counts (item count of the twin or byte count); stell/seof against ftell/feof of the twin; on-disk contents of the real files against '
+           'counts (item count of the twin or byte count); seof and stell against feof and ftell of the twin after EVERY transition (and as operations of '
+           'their own); on-disk contents of the real files against '
            'model and twin files after every close (sclose, re-open, del, leaving a with block, end of history); IOError and no stdio call for '
            'every operation on a File that is not open; link-time interposed fopen/fclose/fread/fwrite/fseek/ftell/fflush/feof/vfprintf/vfscanf: '
            'never a NULL or stale handle, fclose exactly once per successful fopen, one open stream iff the File is open.  Operations that ISO C '
            'leaves undefined (input directly after output and output directly after input that did not reach end-of-file, without a flush or '
-           'seek) are not enabled; reads on "ab", writes on "rb", seeks before the start and fopen of a missing file are C-library-defined '
+           'seek) and reads while the end-of-file indicator is set although the file has grown are not enabled; reads on "ab", writes on "rb", seeks before the start and fopen of a missing file are C-library-defined '
            'failures: only agreement with the twin afterwards is required.  distinct_nontrivial = states whose discovering transition read back '
            'at least one previously written byte correctly (sread / scan_from) or closed a non-empty file whose on-disk bytes were compared'),
   'bounds': {
-    'quick': 'all histories of depth <= 5 over the full 43-operation alphabet (gcc build); depth <= 4 under ASan+UBSan',
-    'thorough': 'all histories of depth <= 7 over the full 43-operation alphabet (gcc build); depth <= 6 under ASan+UBSan',
+    'quick': 'all histories of depth <= 5 over the full 45-operation alphabet (gcc build); depth <= 4 under ASan+UBSan',
+    'thorough': 'all histories of depth <= 7 over the full 45-operation alphabet (gcc build); depth <= 6 under ASan+UBSan',
   },
   'assumptions': [
     'glibc stdio is the reference for the twin stream; a disagreement between the twin and the harness\'s own byte-array model is reported as a harness error (exit 2), never as a verdict',
